@@ -491,7 +491,13 @@ def _as_term(I, v, ty):
         return z3.IntVal(int(v))
     if isinstance(v, (int, SInt)):
         return _t(v)
-    # INTEGER affinity converts numeric text; the code under contract passes integers
+    # A-SQL-AFFINITY: a text parameter compared with / stored into an INTEGER-affinity column is converted when it is
+    # the decimal text of an integer (only the canonical text str(n), which the engine tracks as origin_int)
+    if isinstance(v, SStr) and getattr(v, "origin_int", None) is not None:
+        return _t(v.origin_int)
+    if isinstance(v, str) and v.lstrip("-").isdigit() and str(int(v)) == v:
+        return z3.IntVal(int(v))
+    # other text: SQLite keeps it as text (compares greater than every number); the code under contract passes integers
     raise Outside(f"SQL: parameter of type {type(v).__name__} for an INTEGER column")
 
 
